@@ -152,18 +152,20 @@ def tokens(t0: int, t1: int, t2: int, pa: bool, ka: int, px: bool, kx: int, pb: 
 
 
 # ------------------------------------------------------------------------------------------------ options with templated values
-@harness("C09", lemma="option-values", cubes={"shape": [0, 1, 2, 3, 4, 5, 6]}, pre=["0 <= kb <= 3", "len(sb) <= 1", "-9 <= n <= 99"],
+@harness("C09", lemma="option-values", cubes={"shape": [0, 1, 2, 3, 4, 5, 6, 7, 8]}, pre=["0 <= kb <= 3", "len(sb) <= 1", "-9 <= n <= 99"],
          example=dict(shape=4, pb=True, kb=0, sb="z", n=3, pc=True, dflt=False), timeout=300,
          bounds="Option whose value (or string default) is templated at nesting depth 0..3: '{B}', 'x{B}', ['{B}', 1], {'Q': '{B}'}, "
-                "{'Q': ['{C}']} with C = '{B}', [{'Q': {'R': 'x{B}'}}], default='d{B}'; B a string / bounded int / True / None or absent",
+                "{'Q': ['{C}']} with C = '{B}', [{'Q': {'R': 'x{B}'}}], default='d{B}', a mapping with a templated string before AND after a "
+                "nested mapping, a list with a templated string before a mapping and a nested list; B a string / bounded int / True / None or absent",
          what="keys() and explain() of an Option whose value or default is templated at any nesting depth include every key the "
               "substitution reads; the value is the reference substitution; a missing reference fails with a missing-key error")
 def option_values(shape: int, pb: bool, kb: int, sb: str, n: int, pc: bool, dflt: bool) -> int:
     if not plain(sb):
         return 1
-    vals = ["{B}", "x{B}", ["{B}", 1], {"Q": "{B}"}, {"Q": ["{C}"]}, [{"Q": {"R": "x{B}"}}], None]
-    o = {}
-    if shape < 6:
+    vals = ["{B}", "x{B}", ["{B}", 1], {"Q": "{B}"}, {"Q": ["{C}"]}, [{"Q": {"R": "x{B}"}}], None,
+            {"H": "{B}", "N": {"U": "{C}"}, "Z": "{D}"}, ["{D}", {"Q": "{B}"}, ["{C}"]]]
+    o = {"D": "dv"}
+    if shape != 6:
         o["A"] = vals[shape]
     if pb:
         o["B"] = _vals(kb, n, sb, "B")
@@ -174,7 +176,7 @@ def option_values(shape: int, pb: bool, kb: int, sb: str, n: int, pc: bool, dflt
     keys = outcome(lambda: opt.keys(o))
     ex = outcome(lambda: opt.explain(o))
     reads = []
-    if shape < 6:
+    if shape != 6:
         exp = ref_outcome(lambda: ref_resolve(o["A"], o, reads))
         reads.append("A")
     else:
